@@ -840,6 +840,7 @@ type Built struct {
 	Insts  [][]value.User // per block, the instructions in call order
 	Terms  []value.User
 	tc     *TypeCtx
+	cur    *string
 	byName map[string]constant.Constant
 	anon   []constant.Constant
 }
@@ -898,9 +899,13 @@ func (bt *Built) Resolve(r *Ref, params []*ir.Param) value.Value {
 // function: NewFunc, Func.NewBlock for all blocks, then per block the
 // instruction calls in order and the terminator call. Panics propagate to
 // the caller (mbt.Guard).
-func BuildProg(p *Prog) *Built {
+func BuildProg(p *Prog) *Built { return BuildProgTracked(p, new(string)) }
+
+// BuildProgTracked is BuildProg; *cur names the constructor call in progress
+// ("kind/class" or the module-level call), so that a panic can be attributed.
+func BuildProgTracked(p *Prog, cur *string) *Built {
 	m := ir.NewModule()
-	bt := &Built{M: m, tc: NewTypeCtx(m), byName: map[string]constant.Constant{}}
+	bt := &Built{M: m, tc: NewTypeCtx(m), byName: map[string]constant.Constant{}, cur: cur}
 	// the function under construction is created first when a declaration refers to it
 	// (aliases, ifuncs, blockaddress); its body is filled afterwards
 	var params []*ir.Param
@@ -943,6 +948,7 @@ func BuildProg(p *Prog) *Built {
 	}
 	for i := range p.Decls {
 		d := &p.Decls[i]
+		*cur = "module:" + d.Op
 		switch d.Op {
 		case "NewFunc":
 		case "NewGlobal":
@@ -984,6 +990,7 @@ func BuildProg(p *Prog) *Built {
 }
 
 func (bt *Built) call(b *ir.Block, c *Case, params []*ir.Param) value.User {
+	*bt.cur = c.Cat + ":" + c.Kind + "|" + c.Cls
 	vals := make([]value.Value, len(c.Ops))
 	for i := range c.Ops {
 		vals[i] = bt.Resolve(c.Ops[i].V, params)
